@@ -29,6 +29,7 @@
 #include <cstdio>
 #include <cstring>
 #include <random>
+#include <mutex>
 #include <cassert>
 
 #if defined(LIBBLOC_MSWIN)
@@ -495,6 +496,9 @@ double Context::random(double max)
   BLOC_VERIF_POINT(BLOC_VP_RANDOM, nullptr);
   static std::minstd_rand r;
   static bool seeded = false;
+  /* the generator is shared by all contexts of the process */
+  static std::mutex lock;
+  std::lock_guard<std::mutex> guard(lock);
   if (!seeded)
   {
     seeded = true;
